@@ -146,3 +146,70 @@ Fixpoint tbl_update (tbl : list (Z * pyf)) (k : Z) (v : pyf) : list (Z * pyf) :=
   | [] => [(k, v)]
   | (k', v') :: r => if Z.eqb k k' then (k, v) :: r else (k', v') :: tbl_update r k v
   end.
+
+(* ---------------------------------------------------------------------------------------------------------
+   executable plumbing for the correspondence cases (bigQ instances); nothing below is used by the theorems *)
+From Bignums Require Import BigQ.
+Definition fl (l : list bigQ) : nat -> bigQ := fun i => nth i l 0%bigQ.
+Definition ml (m : list (list bigQ)) : nat -> nat -> bigQ := fun a b => nth b (nth a m []) 0%bigQ.
+Fixpoint radii_of (O : NumOps bigQ) (tbl : list (Z * pyf)) (zs : list Z) : option (list bigQ) :=
+  match zs with
+  | [] => Some []
+  | z :: r => match radius_value O tbl z, radius_caw tbl z, radii_of O tbl r with
+              | Some x, PVal _, Some xs => Some (x :: xs)
+              | _, _, _ => None
+              end
+  end.
+Definition absd (a b : bigQ) : bigQ := let d := BigQ.sub a b in if bigQ_ltb d 0 then BigQ.opp d else d.
+(* |model - impl| <= 1e-10 |model| + 1e-13 *)
+Definition close (m i : bigQ) : bool :=
+  negb (bigQ_ltb (BigQ.add (BigQ.mul (1 # 10000000000)%bigQ (absd m 0)) (1 # 10000000000000)%bigQ) (absd m i)).
+Fixpoint closel (m i : list bigQ) : bool :=
+  match m, i with [] , [] => true | x :: r, y :: s => close x y && closel r s | _, _ => false end.
+Definition chk (m : option (list bigQ)) (i : list bigQ) : bool :=
+  match m with Some l => closel l i | None => false end.
+
+(* one geometry, all routes: __call__, generate_weights(pt_ind=indices), compute_weights(pt_ind=indices),
+   compute_atom_weight / generate_weights(select=A) / compute_weights(select=A) for the listed atoms *)
+Definition run_case (O : NumOps bigQ) (k M : nat) (tbl : list (Z * pyf)) (zs : list Z)
+  (Rm : list (list bigQ)) (pts : list (list bigQ)) (idx : list nat)
+  (e_call e_gen e_comp : list bigQ) (atoms : list nat) (e_atom e_gsel e_csel : list (list bigQ)) : bool :=
+  match radii_of O tbl zs with
+  | None => false
+  | Some rl =>
+    let rad := fl rl in let R := ml Rm in let P := map fl pts in
+    chk (call O k M rad R P idx) e_call &&
+    chk (generate_weights O k M rad R P (seq 0 (Nat.max (length idx - 1) 1)) idx) e_gen &&
+    chk (compute_weights O k M rad R P (seq 0 (Nat.max (length idx - 1) 1)) idx) e_comp &&
+    forallb (fun ae => closel (compute_atom_weight O k M rad R P (fst ae)) (snd ae)) (combine atoms e_atom) &&
+    forallb (fun ae => chk (generate_weights O k M rad R P [fst ae] []) (snd ae)) (combine atoms e_gsel) &&
+    forallb (fun ae => chk (compute_weights O k M rad R P [fst ae] []) (snd ae)) (combine atoms e_csel) &&
+    (length e_atom =? length atoms) && (length e_gsel =? length atoms) && (length e_csel =? length atoms)
+  end.
+
+(* generate_weights with an explicit select and pt_ind *)
+Definition run_select (O : NumOps bigQ) (k M : nat) (tbl : list (Z * pyf)) (zs : list Z)
+  (Rm : list (list bigQ)) (pts : list (list bigQ)) (select idx : list nat) (e_gen : list bigQ) : bool :=
+  match radii_of O tbl zs with
+  | None => false
+  | Some rl => chk (generate_weights O k M (fl rl) (ml Rm) (map fl pts) select idx) e_gen
+  end.
+
+(* the rounded instance against the exact instance *)
+Definition run_exact_vs_rounded (k M : nat) (tbl : list (Z * pyf)) (zs : list Z)
+  (Rm : list (list bigQ)) (pts : list (list bigQ)) (idx : list nat) : bool :=
+  match radii_of QOps tbl zs, radii_of QOpsR tbl zs with
+  | Some r1, Some r2 =>
+      match call QOps k M (fl r1) (ml Rm) (map fl pts) idx, call QOpsR k M (fl r2) (ml Rm) (map fl pts) idx with
+      | Some a, Some b => closel a b
+      | _, _ => false
+      end
+  | _, _ => false
+  end.
+
+(* Hirshfeld: the spline oracle as a finite table  distance |-> density  per atom *)
+Fixpoint tab_look (t : list (bigQ * bigQ)) (x : bigQ) : bigQ :=
+  match t with [] => 0%bigQ | (k, v) :: r => if BigQ.eqb k x then v else tab_look r x end.
+Definition run_hirshfeld (M : nat) (tab : list (list (bigQ * bigQ))) (pts : list (list bigQ)) (idx : list nat)
+  (e_call : list bigQ) : bool :=
+  closel (hirshfeld_call QOps M (fun A x => tab_look (nth A tab []) x) (map fl pts) idx) e_call.
